@@ -201,3 +201,27 @@ func CommitmentFromReveal(rv string) (string, error) {
 	}
 	return EncodedMultihash(m.Code, m.Digest)
 }
+
+// B64Std is standard padded base64 (how encoding/json writes []byte), own implementation.
+func B64Std(data []byte) string {
+	const alpha = "ABCDEFGHIJKLMNOPQRSTUVWXYZabcdefghijklmnopqrstuvwxyz0123456789+/"
+	var sb strings.Builder
+	for i := 0; i < len(data); i += 3 {
+		var b [3]byte
+		n := copy(b[:], data[i:])
+		v := uint(b[0])<<16 | uint(b[1])<<8 | uint(b[2])
+		sb.WriteByte(alpha[v>>18&63])
+		sb.WriteByte(alpha[v>>12&63])
+		if n > 1 {
+			sb.WriteByte(alpha[v>>6&63])
+		} else {
+			sb.WriteByte('=')
+		}
+		if n > 2 {
+			sb.WriteByte(alpha[v&63])
+		} else {
+			sb.WriteByte('=')
+		}
+	}
+	return sb.String()
+}
